@@ -142,8 +142,16 @@ func valueNodeBase(v ssa.Value) (deletedKeys []string, ok bool) {
 		}
 	case *ssa.UnOp:
 		if fa, isFA := x.X.(*ssa.FieldAddr); isFA && x.Op == token.MUL && isNamed(fa.X.Type(), pkgSC, "valueNode") && engine.FieldOf(fa).Name() == "data" {
-			b := engine.ValKey(fa.X)
-			return []string{"MUL(&(" + b + ").deleted)", "*(&(" + b + ").deleted)"}, true
+			// every load of the deleted flag of the same entry (keys carry the load class)
+			var out []string
+			engine.Instrs(x.Parent(), func(in ssa.Instruction) {
+				if ld, ok := in.(*ssa.UnOp); ok && ld.Op == token.MUL {
+					if fa2, ok := ld.X.(*ssa.FieldAddr); ok && engine.FieldOf(fa2).Name() == "deleted" && engine.ValKey(fa2.X) == engine.ValKey(fa.X) {
+						out = append(out, engine.ValKey(ld))
+					}
+				}
+			})
+			return out, true
 		}
 	}
 	return nil, false
